@@ -94,7 +94,7 @@ SApply(e, x) ==
     [] e.name = "copy"       -> x
     [] e.name = "rc"         -> RC(x)
     [] e.name = "reverse"    -> Rev(x)
-    [] e.name = "sub"        -> SubSeq(x, a[1] + 1, a[2])
+    [] e.name = "sub"        -> Seg(x, a[1] + 1, a[2])
     [] OTHER -> <<"unknown-op">>
 
 SopFails(e) ==
@@ -117,14 +117,14 @@ PsetFails(e) ==
   IF e.panic # "" THEN {"PANIC"} ELSE
   LET N == Len(e.seqs)
       S3 == /\ e.got = e.seqs /\ e.n = N /\ e.is_empty = (N = 0) /\ e.lens_after = [i \in 1..N |-> i]
-            /\ \A i \in 1..Len(e.subs) : LET t == e.subs[i] IN t[4] = SubSeq(e.seqs[t[1] + 1], t[2] + 1, t[3])
+            /\ \A i \in 1..Len(e.subs) : LET t == e.subs[i] IN t[4] = Seg(e.seqs[t[1] + 1], t[2] + 1, t[3])
   IN IF S3 THEN {} ELSE {"S3"}
 
 \* ---------------------------------------------------------------- slices (C15)
 VApply(a, base, cur) ==
-  CASE a[1] = "slice"  -> SubSeq(IF meta.first THEN base ELSE cur, a[2] + 1, a[3])
-    [] a[1] = "prefix" -> SubSeq(base, 1, a[2])
-    [] a[1] = "suffix" -> SubSeq(base, Len(base) - a[2] + 1, Len(base))
+  CASE a[1] = "slice"  -> Seg(IF meta.first THEN base ELSE cur, a[2] + 1, a[3])
+    [] a[1] = "prefix" -> Seg(base, 1, a[2])
+    [] a[1] = "suffix" -> Seg(base, Len(base) - a[2] + 1, Len(base))
     [] a[1] = "rc"     -> RC(cur)
     [] OTHER -> <<"unknown-op">>
 
@@ -244,7 +244,7 @@ Runs(codes) ==
       Starts == {i \in 1..N : IsAcgt(codes[i]) /\ (i = 1 \/ ~IsAcgt(codes[i - 1]))}
       EndOf(i) == CHOOSE j \in i..N : (\A m \in i..j : IsAcgt(codes[m])) /\ (j = N \/ ~IsAcgt(codes[j + 1]))
       ss == SortSet(Starts)
-  IN [t \in 1..Len(ss) |-> MapBases(SubSeq(codes, ss[t], EndOf(ss[t])))]
+  IN [t \in 1..Len(ss) |-> MapBases(Seg(codes, ss[t], EndOf(ss[t])))]
 
 AsciiFails(e) ==
   IF e.panic # "" THEN {"PANIC"} ELSE
@@ -260,6 +260,8 @@ AsciiFails(e) ==
             /\ \A i \in 1..N : /\ o.hashn[i] \in Base /\ o.hashn_name2[i] \in Base
                                /\ (IsAcgt(inp[i]) => (o.hashn[i] = want[i] /\ o.hashn_name2[i] = want[i]))
                                /\ (~IsAcgt(inp[i]) => o.hashn_other[i] = o.hashn[i])
+            \* a function of (read name, position) only: the same position, alone in an otherwise repaired read, gets the same base
+            /\ \A j \in 1..Len(o.hashn_single) : o.hashn_single[j][2] = o.hashn[o.hashn_single[j][1] + 1]
   IN {c \in {"A1", "A2", "A3", "A4"} : ~(CASE c = "A1" -> A1 [] c = "A2" -> A2 [] c = "A3" -> A3 [] c = "A4" -> A4)}
 
 \* ---------------------------------------------------------------- machine
